@@ -10,12 +10,15 @@ import (
 	"crypto/rand"
 	"crypto/rsa"
 	"crypto/sha1"
+	"crypto/sha256"
 	"crypto/x509"
 	"crypto/x509/pkix"
 	"embed"
+	"encoding/hex"
 	"encoding/pem"
 	"fmt"
 	"math/big"
+	"net"
 	"sort"
 	"strings"
 	"sync"
@@ -216,7 +219,7 @@ func CertPEM(certs ...*x509.Certificate) []byte {
 
 // PGPEntity builds an OpenPGP certificate (public key + user id + self
 // signature) around an RSA pool key.
-func PGPEntity(name, uid string) *openpgp.Entity {
+func PGPEntity(name, uidName, email string) *openpgp.Entity {
 	k, ok := Key(name).(*rsa.PrivateKey)
 	if !ok {
 		panic("PGP entities are RSA only")
@@ -229,7 +232,7 @@ func PGPEntity(name, uid string) *openpgp.Entity {
 		PrivateKey: priv,
 		Identities: map[string]*openpgp.Identity{},
 	}
-	u := packet.NewUserId(uid, "", "")
+	u := packet.NewUserId(uidName, "", email)
 	if u == nil {
 		panic("bad uid")
 	}
@@ -260,4 +263,32 @@ func PGPPublic(e *openpgp.Entity) []byte {
 		panic(fmt.Sprint("serialising pgp entity: ", err))
 	}
 	return buf.Bytes()
+}
+
+// SelfSignedServer creates a TLS server certificate for localhost / 127.0.0.1.
+func SelfSignedServer(cn string, key crypto.Signer) *x509.Certificate {
+	tmpl := &x509.Certificate{
+		SerialNumber:          big.NewInt(atomic.AddInt64(&serial, 1)),
+		Subject:               pkix.Name{CommonName: cn},
+		NotBefore:             Epoch,
+		NotAfter:              Far,
+		KeyUsage:              x509.KeyUsageDigitalSignature | x509.KeyUsageCertSign,
+		ExtKeyUsage:           []x509.ExtKeyUsage{x509.ExtKeyUsageServerAuth},
+		DNSNames:              []string{"localhost"},
+		IPAddresses:           []net.IP{net.ParseIP("127.0.0.1")},
+		IsCA:                  true,
+		BasicConstraintsValid: true,
+	}
+	der, err := x509.CreateCertificate(rand.Reader, tmpl, tmpl, key.Public(), key)
+	if err != nil {
+		panic(err)
+	}
+	cert, _ := x509.ParseCertificate(der)
+	return cert
+}
+
+// SPKIFingerprint is the hex SHA-256 of the certificate's SubjectPublicKeyInfo.
+func SPKIFingerprint(c *x509.Certificate) string {
+	d := sha256.Sum256(c.RawSubjectPublicKeyInfo)
+	return hex.EncodeToString(d[:])
 }
